@@ -1,5 +1,398 @@
 package chain
 
-import "github.com/ChainSafe/gossamer/verifsim/kernel"
+import (
+	"bytes"
+	"encoding/json"
+	"sort"
+	"testing/synctest"
+	"time"
 
-func runFinality(k *kernel.K) {}
+	"github.com/ChainSafe/gossamer/dot/state"
+	"github.com/ChainSafe/gossamer/dot/types"
+	"github.com/ChainSafe/gossamer/lib/common"
+	"github.com/ChainSafe/gossamer/lib/runtime/storage"
+	"github.com/ChainSafe/gossamer/pkg/trie"
+	"github.com/ChainSafe/gossamer/pkg/trie/inmemory"
+	cu "github.com/ChainSafe/gossamer/verifsim/chainutil"
+	"github.com/ChainSafe/gossamer/verifsim/kernel"
+	"github.com/ChainSafe/gossamer/verifsim/simdisk"
+	su "github.com/ChainSafe/gossamer/verifsim/storeutil"
+)
+
+type noTelemetry struct{}
+
+func (noTelemetry) SendMessage(json.Marshaler) {}
+
+// fBlock is a block of the simulated source with its full state (reference).
+type fBlock struct {
+	rb     *cu.RefBlock
+	state  map[string][]byte // full state content after the block
+	puts   [][2][]byte       // changes relative to the parent
+	parent *fBlock
+	depth  int
+}
+
+type fNode struct {
+	k     *kernel.K
+	disk  *simdisk.Disk
+	tries *state.Tries
+	bs    *state.BlockState
+	ss    *state.InmemoryStorageState
+	ref   *cu.RefTree
+	inbox []*fBlock
+	all   map[common.Hash]*fBlock // every block the source ever produced
+	fin   []common.Hash           // finalised chain (genesis .. head), by number
+	round uint64
+}
+
+func sortedHashes(m map[common.Hash]bool) []common.Hash {
+	var out []common.Hash
+	for h := range m {
+		out = append(out, h)
+	}
+	sort.Slice(out, func(i, j int) bool { return bytes.Compare(out[i][:], out[j][:]) < 0 })
+	return out
+}
+
+func (n *fNode) open(genesis *fBlock, fresh bool) {
+	db := n.disk.Open()
+	n.tries = state.NewTries()
+	n.tries.SetEmptyTrie()
+	var err error
+	if fresh {
+		n.bs, err = state.NewBlockStateFromGenesis(db, n.tries, genesis.rb.Header, noTelemetry{})
+	} else {
+		n.bs, err = state.NewBlockState(db, n.tries, noTelemetry{})
+	}
+	if err != nil {
+		n.k.Violate("C17", "restart", "block-state-reload-failed", "opening block state (fresh=%v) failed: %v", fresh, err)
+		n.k.Stop()
+	}
+	n.ss, err = state.NewStorageState(db, n.bs, n.tries)
+	if err != nil {
+		panic(err)
+	}
+	if fresh {
+		tr := inmemory.NewEmptyTrie()
+		for k, v := range genesis.state {
+			tr.Put([]byte(k), v)
+		}
+		ts := storage.NewTrieState(tr)
+		if err := n.ss.StoreTrie(ts, nil); err != nil {
+			panic(err)
+		}
+	}
+}
+
+func runFinality(k *kernel.K) {
+	steps := k.Range(10, 80, "steps")
+	maxDepth := k.Range(3, 10, "maxdepth")
+	// genesis with a small state
+	gstate := map[string][]byte{"g": {1}}
+	groot := su.SpecRoot(gstate, su.V0)
+	gh := types.NewHeader(common.Hash{}, common.Hash(groot), common.Hash{}, 0, types.NewDigest())
+	genesis := &fBlock{rb: &cu.RefBlock{Hash: gh.Hash(), Number: 0, Header: gh}, state: gstate}
+	n := &fNode{k: k, disk: simdisk.NewDisk(), all: map[common.Hash]*fBlock{genesis.rb.Hash: genesis}}
+	n.open(genesis, true)
+	n.ref = cu.NewRefTree(&cu.RefBlock{Hash: genesis.rb.Hash, Number: 0, Header: gh})
+	n.fin = []common.Hash{genesis.rb.Hash}
+	pool := []*fBlock{genesis}
+	salt := 0
+	synctest.Wait()
+	for s := 0; s < steps; s++ {
+		if k.Bool(1, 3, "clock-advance") {
+			time.Sleep(time.Duration(1+k.Choose(5, "clock-ms")) * time.Millisecond)
+		}
+		switch a := k.Choose(10, "action"); {
+		case a <= 3: // the source produces a block
+			var p *fBlock
+			if k.Bool(1, 2, "parent-recent") {
+				lo := len(pool) - 4
+				if lo < 0 {
+					lo = 0
+				}
+				p = pool[lo+k.Choose(len(pool)-lo, "parent")]
+			} else {
+				p = pool[k.Choose(len(pool), "parent")]
+			}
+			if p.depth >= maxDepth {
+				continue
+			}
+			salt++
+			st := map[string][]byte{}
+			for kk, v := range p.state {
+				st[kk] = v
+			}
+			var puts [][2][]byte
+			// 0 changes => the state root coincides with the parent's; same key/value as a sibling => coincides with the sibling's
+			for i := k.Choose(3, "nputs"); i > 0; i-- {
+				key := []byte{byte('a' + k.Choose(4, "put-key"))}
+				val := []byte{byte(k.Choose(3, "put-val")), byte(p.depth)}
+				if k.Bool(1, 4, "put-unique") {
+					val = append(val, byte(salt))
+				}
+				st[string(key)] = val
+				puts = append(puts, [2][]byte{key, val})
+			}
+			root := su.SpecRoot(st, su.V0)
+			num := p.rb.Number + 1
+			h := types.NewHeader(p.rb.Hash, common.Hash(root), common.Hash{byte(salt), byte(salt >> 8)}, num, cu.BabeDigest(k.Bool(1, 2, "primary"), 0, uint64(1000+salt)))
+			fb := &fBlock{rb: &cu.RefBlock{Hash: h.Hash(), Parent: p.rb.Hash, Number: num, Header: h}, state: st, puts: puts, parent: p, depth: p.depth + 1}
+			pool = append(pool, fb)
+			n.all[fb.rb.Hash] = fb
+			n.inbox = append(n.inbox, fb)
+			if k.Bool(1, 8, "dup") {
+				n.inbox = append(n.inbox, fb)
+				k.Fault("duplicate")
+			}
+			k.Event("produce", "%s parent=%s num=%d root=%x", cu.Short(fb.rb.Hash), cu.Short(p.rb.Hash), num, root[:3])
+		case a <= 6: // import
+			if len(n.inbox) == 0 {
+				continue
+			}
+			i := k.Choose(len(n.inbox), "inbox-index")
+			if i != 0 {
+				k.Fault("reorder")
+			}
+			fb := n.inbox[i]
+			n.inbox = append(n.inbox[:i], n.inbox[i+1:]...)
+			n.importBlock(fb)
+			synctest.Wait()
+			n.checkCommon()
+		case a <= 8: // finalisation request
+			var target common.Hash
+			kind := k.Choose(8, "fin-kind")
+			live := n.ref.All()
+			switch {
+			case kind <= 3:
+				target = live[k.Choose(len(live), "fin-live")]
+			case kind == 4:
+				target = n.ref.Root
+			case kind == 5 && len(n.fin) > 1:
+				target = n.fin[k.Choose(len(n.fin)-1, "fin-stale")]
+			case kind == 6:
+				target = pool[k.Choose(len(pool), "fin-any")].rb.Hash
+			default:
+				target = common.Hash{0xfe, byte(s)}
+			}
+			n.finalise(target)
+			synctest.Wait()
+			n.checkCommon()
+		default: // crash + restart: only the simulated disk survives
+			if !k.Bool(1, 5, "restart-really") {
+				continue
+			}
+			k.Fault("restart")
+			k.Event("restart", "finalised=#%d", len(n.fin)-1)
+			n.open(genesis, false)
+			head := n.all[n.fin[len(n.fin)-1]]
+			n.ref = cu.NewRefTree(&cu.RefBlock{Hash: head.rb.Hash, Number: head.rb.Number, Header: head.rb.Header})
+			// the source re-announces everything it has
+			n.inbox = append([]*fBlock{}, pool[1:]...)
+			synctest.Wait()
+			n.checkCommon()
+			n.checkPersistent(n.bs)
+		}
+	}
+}
+
+func (n *fNode) importBlock(fb *fBlock) {
+	k := n.k
+	parentKnown := n.ref.Has(fb.rb.Parent)
+	known := n.ref.Has(fb.rb.Hash)
+	if !parentKnown || known {
+		// the importer only hands over blocks whose parent is known; exercise the refusal
+		err := n.bs.AddBlock(&types.Block{Header: *fb.rb.Header, Body: *types.NewBody([]types.Extrinsic{})})
+		k.Event("import-refused", "%s known=%v parentKnown=%v", cu.Short(fb.rb.Hash), known, parentKnown)
+		if err == nil {
+			k.Violate("C15", "add", "invalid-add-accepted", "AddBlock of %s (already known=%v, parent known=%v) succeeded", cu.Short(fb.rb.Hash), known, parentKnown)
+			k.Stop()
+		}
+		return
+	}
+	proot := fb.parent.rb.Header.StateRoot
+	ts, err := n.ss.TrieState(&proot)
+	if err != nil {
+		k.Violate("C17", "import", "parent-state-not-available", "TrieState(parent state of %s) failed: %v", cu.Short(fb.rb.Hash), err)
+		k.Stop()
+	}
+	ts.SetVersion(trie.V0)
+	ts.StartTransaction() // block execution runs inside a storage transaction that Root() commits
+	for _, p := range fb.puts {
+		if err := ts.Put(p[0], p[1]); err != nil {
+			panic(err)
+		}
+	}
+	root, err := ts.Root()
+	if err != nil || root != fb.rb.Header.StateRoot {
+		k.Violate("C01", "root", "block-state-root-differs-from-spec", "state root after executing block %s is %s, spec root %s (%v)", cu.Short(fb.rb.Hash), root, fb.rb.Header.StateRoot, err)
+		k.Stop()
+	}
+	if err := n.ss.StoreTrie(ts, fb.rb.Header); err != nil {
+		panic(err)
+	}
+	if err := n.bs.AddBlock(&types.Block{Header: *fb.rb.Header, Body: *types.NewBody([]types.Extrinsic{})}); err != nil {
+		k.Violate("C15", "add", "valid-add-refused", "AddBlock(%s) with known parent failed: %v", cu.Short(fb.rb.Hash), err)
+		k.Stop()
+	}
+	n.ref.Add(&cu.RefBlock{Hash: fb.rb.Hash, Parent: fb.rb.Parent, Number: fb.rb.Number, Header: fb.rb.Header})
+	k.Event("import", "%s num=%d", cu.Short(fb.rb.Hash), fb.rb.Number)
+}
+
+type snapshot struct {
+	head   common.Hash
+	blocks []common.Hash
+	unfin  []common.Hash
+	roots  []common.Hash
+}
+
+func (n *fNode) snap() snapshot {
+	s := snapshot{}
+	s.head, _ = n.bs.GetHighestFinalisedHash()
+	s.blocks = n.bs.VerifBlockTree().GetAllBlocks()
+	cu.SortHashes(s.blocks)
+	for h := range n.all {
+		if n.bs.VerifUnfinalisedHas(h) {
+			s.unfin = append(s.unfin, h)
+		}
+	}
+	cu.SortHashes(s.unfin)
+	s.roots = n.tries.VerifRoots()
+	cu.SortHashes(s.roots)
+	return s
+}
+
+func (n *fNode) finalise(target common.Hash) {
+	k := n.k
+	before := n.snap()
+	valid := n.ref.Has(target)
+	n.round++
+	err := n.bs.SetFinalisedHash(target, n.round, 0)
+	after := n.snap()
+	if err != nil {
+		k.Event("finalise-refused", "%s valid=%v", cu.Short(target), valid)
+		if valid {
+			k.Violate("C17", "finalise", "valid-finalisation-refused", "finalising %s, a known descendant of the finalised head, failed: %v", cu.Short(target), err)
+		}
+		// a refused attempt changes nothing
+		if before.head != after.head || !cu.SameSet(before.blocks, after.blocks) || !cu.SameSet(before.unfin, after.unfin) || !cu.SameSet(before.roots, after.roots) {
+			k.Violate("C17", "refused-changes-nothing", "refused-finalisation-changed-state", "refused finalisation of %s changed state: head %s->%s, tree %d->%d blocks, unfinalised %d->%d, tries %d->%d",
+				cu.Short(target), cu.Short(before.head), cu.Short(after.head), len(before.blocks), len(after.blocks), len(before.unfin), len(after.unfin), len(before.roots), len(after.roots))
+		}
+		return
+	}
+	if !valid {
+		what := "unknown block"
+		if fb := n.all[target]; fb != nil {
+			what = "known block that does not descend from the finalised head"
+			for _, f := range n.fin {
+				if f == target {
+					what = "stale ancestor of the finalised head"
+				}
+			}
+		}
+		class := "invalid-finalisation-accepted"
+		if what == "stale ancestor of the finalised head" {
+			class = "stale-ancestor-finalisation-accepted"
+		}
+		k.Violate("C17", "finalise", class, "finalising %s (%s) succeeded; head %s -> %s", cu.Short(target), what, cu.Short(before.head), cu.Short(after.head))
+	}
+	if target == n.ref.Root {
+		k.Event("finalise-same", "%s", cu.Short(target))
+	} else {
+		path := n.ref.PathFrom(n.ref.Root, target)
+		n.fin = append(n.fin, path[1:]...)
+		pruned := n.ref.Finalise(target)
+		k.Event("finalise", "%s abandoned=%d", cu.Short(target), len(pruned))
+		if len(pruned) > 0 {
+			k.Nontriv = true
+			k.Probe("finalised-with-abandoned-blocks")
+		}
+		if len(pruned) >= 2 {
+			k.Probe("finalised-with->=2-abandoned")
+		}
+		// no abandoned block is retrievable any more / keeps its trie
+		liveRoots := map[common.Hash]bool{trie.EmptyHash: true}
+		for _, h := range n.ref.All() {
+			liveRoots[n.all[h].rb.Header.StateRoot] = true
+		}
+		for _, h := range pruned {
+			if n.bs.VerifUnfinalisedHas(h) {
+				k.Violate("C17", "abandoned-discarded", "abandoned-block-still-unfinalised", "abandoned block %s (#%d) is still retrievable as an unfinalised block after finalising %s", cu.Short(h), n.all[h].rb.Number, cu.Short(target))
+			}
+			if hd, err := n.bs.GetHeader(h); err == nil && hd != nil {
+				k.Violate("C17", "abandoned-discarded", "abandoned-block-header-retrievable", "header of abandoned block %s is still retrievable", cu.Short(h))
+			}
+			sr := n.all[h].rb.Header.StateRoot
+			if !liveRoots[sr] && n.tries.VerifHas(sr) {
+				k.Violate("C17", "abandoned-discarded", "abandoned-trie-still-cached", "state trie %x of abandoned block %s is still cached", sr[:4], cu.Short(h))
+			}
+		}
+	}
+	if after.head != target {
+		k.Violate("C17", "finalise", "head-not-target", "after finalising %s the highest finalised hash is %s", cu.Short(target), cu.Short(after.head))
+	}
+	n.checkPersistent(nil)
+}
+
+// checkCommon: invariants after every event.
+func (n *fNode) checkCommon() {
+	k := n.k
+	head, err := n.bs.GetHighestFinalisedHash()
+	if err != nil || head != n.ref.Root {
+		k.Violate("C17", "head", "finalised-head-differs", "highest finalised hash is %s (%v), reference %s", cu.Short(head), err, cu.Short(n.ref.Root))
+	}
+	got := n.bs.VerifBlockTree().GetAllBlocks()
+	if !cu.SameSet(got, n.ref.All()) {
+		k.Violate("C15", "block-set", "tree-blocks-differ", "tree holds %v, reference %v", shorts(got), shorts(n.ref.All()))
+		k.Stop()
+	}
+	// every cached trie belongs to a live block (or is the empty trie)
+	liveRoots := map[common.Hash]bool{trie.EmptyHash: true}
+	for _, h := range n.ref.All() {
+		liveRoots[n.all[h].rb.Header.StateRoot] = true
+	}
+	for _, r := range n.tries.VerifRoots() {
+		if !liveRoots[r] {
+			k.Violate("C17", "tries-bounded", "trie-of-no-live-block-cached", "cached trie %x belongs to no live block (live blocks: %d, cached tries: %d)", r[:4], len(n.ref.Blocks), n.tries.VerifLen())
+		}
+	}
+	// unfinalised map == tree minus the finalised root
+	for h := range n.all {
+		want := n.ref.Has(h) && h != n.ref.Root
+		if n.bs.VerifUnfinalisedHas(h) != want {
+			k.Violate("C17", "unfinalised-map", "unfinalised-map-differs", "block %s: in unfinalised map = %v, expected %v", cu.Short(h), !want, want)
+		}
+	}
+}
+
+// checkPersistent: every finalised-chain block is resolvable by number from
+// persistent storage (checked on a fresh BlockState over a copy of the disk).
+func (n *fNode) checkPersistent(reopened *state.BlockState) {
+	k := n.k
+	bs := reopened
+	if bs == nil {
+		var err error
+		bs, err = state.NewBlockState(n.disk.Clone().Open(), state.NewTries(), noTelemetry{})
+		if err != nil {
+			k.Violate("C17", "persistent", "block-state-reload-failed", "reloading the block state from disk failed: %v", err)
+		}
+	}
+	head, err := bs.GetHighestFinalisedHash()
+	if err != nil || head != n.fin[len(n.fin)-1] {
+		k.Violate("C17", "persistent", "persisted-head-differs", "persisted finalised head is %s (%v), expected %s", cu.Short(head), err, cu.Short(n.fin[len(n.fin)-1]))
+	}
+	for num, h := range n.fin {
+		got, err := bs.GetHashByNumber(uint(num))
+		if err != nil || got != h {
+			k.Violate("C17", "persistent", "finalised-block-not-found-by-number", "finalised block #%d: lookup by number from storage gives %s (%v), expected %s", num, cu.Short(got), err, cu.Short(h))
+		}
+		hd, err := bs.GetHeader(h)
+		if err != nil || hd.Hash() != h {
+			k.Violate("C17", "persistent", "finalised-header-not-stored", "header of finalised block #%d not readable from storage: %v", num, err)
+		}
+		if _, err := bs.GetBlockBody(h); err != nil {
+			k.Violate("C17", "persistent", "finalised-body-not-stored", "body of finalised block #%d not readable from storage: %v", num, err)
+		}
+	}
+}
